@@ -69,6 +69,20 @@ CHECKS = {
         technique="TLA+ protocol state machine, TLC-generated behaviours replayed into the real assemblers",
         engine="assembler",
     ),
+    "C17": dict(
+        category="model_checking",
+        text="Storage.tla is the key-value contract of the storage interfaces under content-addressed use (one action per "
+             "public call, refused puts as a named no-effect action). TLC enumerates every history inside the bounds with "
+             "the result each call must return; the harness replays each on memstore (native and fallback paths), "
+             "cidlink.Memory and fsstore (two sharding/escaping configurations) under adversarial key profiles, scribbles "
+             "over the caller's buffer after each put, and watches every filesystem path through the verif hooks plus a "
+             "directory diff against a canary. In the other direction random 300-call histories recorded from the real "
+             "stores are validated by TLC against the same specification (StorageTrace.tla).",
+        design_ref="DESIGN.md section 4, C17",
+        note="<= 4 calls over 2-3 keys exhaustively, 300-call recorded histories over 12 keys; trusted: TLC, hook placement.",
+        technique="TLA+ key-value contract; TLC-generated histories replayed into the stores + TLC trace validation of recorded histories",
+        engine="tlc+vh",
+    ),
     "C18": dict(
         category="fault_enumeration",
         text="FsStore.tla models the staging-file/rename protocol with one action per filesystem operation (= per verif "
@@ -113,7 +127,7 @@ def main():
             "guard": "verif",
             "enable": "go build -tags verif (the harness module replaces github.com/ipld/go-ipld-prime with /repo)",
             "baseline_off_cmd": "cd /repo && GOFLAGS=-mod=mod go test -vet=off -count=1 -timeout 25m ./...",
-            "source_commits": ["0ae6174"],
+            "source_commits": ["0ae6174", "abe407c"],
             "add_only": True,
         },
         "engines": [
